@@ -11,6 +11,10 @@
 //               ONE call / in adjacent pairs starting at key 0 / in adjacent pairs starting at key 1 (key 0 alone)
 //   C13_TWIN  = 1   a second session on the SAME Terminal (own connection, own reference) receives one key of the fixed cycle
 //               {b, LEFT, a, ENTER, UP, ENTER} after every segment of the first; both sessions are judged after each of their segments
+//   C13_LONG  = 1   the prefill lines are 20 characters long (15 x 'a' + 5 varying), i.e. longer than the 15-byte small-string
+//               buffer, so the line, the recalled line and the history entries are heap strings (a stale pointer into one is a
+//               use-after-free ASan can see). No {a,b} names are mounted in this run: the executed line is read from the shell's
+//               own "Error: '<line>' not found." answer instead of the probe's argv.
 //   C13_ALPHA = base (default) | alias   alias = {a, LEFT, UP, ENTER} + 0x08 as Backspace + keys the reference editor does
 //               not know (TAB, Insert, PgUp, PgDn, F1, F5, F12, Alt+a, Ctrl+Alt+a, 0xC2 0xA1, an unknown CSI, a lone ESC),
 //               which it therefore ignores
@@ -56,7 +60,8 @@ static std::vector<std::vector<std::string>> g_calls;   // argv of every probe i
 
 static std::string g_enter = "\r\n";     // byte encoding of the Enter key in this run: CR LF, bare CR, bare LF or CR NUL (all four are accepted by the scanner)
 static bool g_enter_cr = false;          // C13_ENTER=cr: bare CR, which is an Enter only at the end of a segment
-static std::string g_glue = "none", g_alpha = "base"; static bool g_twin = false;
+static std::string g_glue = "none", g_alpha = "base"; static bool g_twin = false, g_long = false;
+static std::vector<int> prefill_keys(int i) { std::vector<int> k; if (g_long) k.assign(15, KA); for (int b = 0; b < 5; b++) k.push_back(((i >> b) & 1) ? KB : KA); return k; }
 static std::string g_mode; static int g_prefill = 0; static size_t g_depth = 6; static uint32_t g_options = 0; static bool g_quiet = false;
 static Terminal *g_term = nullptr; static Worker g_worker;
 
@@ -89,7 +94,7 @@ static void setup() {
   g_term->impl_->session_ctx_pool_.keep_number_ = 0;      // de-pool: a freed session is really freed (ASan sees stale use)
   auto probe = g_term->createFuncNode([](const Session &s, const Args &a) { g_calls.push_back(a); s.send("ok\r\n"); }, "probe");
   // the probe is mounted under every line over {a,b} that can be typed within the bound, so argv[0] IS the executed line
-  size_t maxlen = (g_prefill ? 5 : 0) + g_depth;
+  size_t maxlen = g_long ? 0 : (g_prefill ? 5 : 0) + g_depth;
   for (size_t len = 1; len <= maxlen; len++) for (size_t v = 0; v < ((size_t)1 << len); v++) { std::string n; for (size_t i = 0; i < len; i++) n.push_back(((v >> i) & 1) ? 'b' : 'a'); g_term->mountNode(g_term->rootNode(), probe, n); }
 }
 
@@ -112,6 +117,10 @@ static std::string replay(const std::vector<int> &h, std::string &viol) {
       try { r = term.onRecvString(st, bytes); } catch (const std::exception &e) { viol = std::string("editor-key-") + KN[k] + "-" + where + "-uncaught-exception what=" + e.what(); g_worker.poisoned = true; return false; }
       if (!r) { viol = "key-rejected-by-live-session"; return false; }
       std::string seg = glued ? " segment='" + esc(bytes) + "'" : "";
+      if (g_long) {   // nothing is mounted: every executed line is answered by "Error: '<line>' not found."
+        if (!g_calls.empty()) { viol = "harness-probe-called-in-long-line-run"; return false; }
+        for (size_t p0 = 0; (p0 = c.out.find("Error: '", p0)) != std::string::npos;) { size_t e0 = c.out.find("' not found.", p0); if (e0 == std::string::npos) break; g_calls.push_back({c.out.substr(p0 + 8, e0 - p0 - 8)}); p0 = e0; }
+      }
       if (enters) {
         bool same = g_calls.size() == want.size(); for (size_t i = 0; same && i < want.size(); i++) same = g_calls[i].size() == 1 && g_calls[i][0] == want[i];
         if (!same && want.empty()) { viol = "enter-on-empty-line-executed-a-command got='" + esc(g_calls[0][0]) + "'" + seg; return false; }
@@ -141,7 +150,7 @@ static std::string replay(const std::vector<int> &h, std::string &viol) {
     SessionContext *s = first.s; Ref &ref = first.ref;
     bool ok = true;
     for (int i = 0; ok && i < prefill; i++) {   // 19 distinct stored lines typed through the same path, one key per segment
-      for (int b = 0; ok && b < 5; b++) ok = step({((i >> b) & 1) ? KB : KA});
+      for (int k : prefill_keys(i)) { ok = step({k}); if (!ok) break; }
       ok = ok && step({ENTER});
     }
     if (!ok) viol = "prefill:" + viol;
@@ -149,7 +158,7 @@ static std::string replay(const std::vector<int> &h, std::string &viol) {
     std::string canon = s->curr_input + "|" + std::to_string(s->cursor) + "|" + std::to_string(s->history_index) + "|";
     for (auto &x : s->history) canon += x + ",";
     canon += "|" + ref.line + "|" + std::to_string(ref.cur) + "|" + std::to_string(ref.hidx) + "|" + std::to_string(ref.hist.size());
-    if (g_twin) { canon += "||" + second.s->curr_input + "|" + std::to_string(second.s->cursor) + "|" + std::to_string(second.s->history_index) + "|"; for (auto &x : second.s->history) canon += x + ","; term.deleteSession(second.st); }
+    if (g_twin) { canon += "||phase" + std::to_string(twin_i % 6) + "|" + second.s->curr_input + "|" + std::to_string(second.s->cursor) + "|" + std::to_string(second.s->history_index) + "|"; for (auto &x : second.s->history) canon += x + ","; term.deleteSession(second.st); }
     term.deleteSession(first.st);
     return canon;
   }
@@ -158,7 +167,7 @@ static std::string replay(const std::vector<int> &h, std::string &viol) {
 // the reference alone: where the last key of the history is pressed (names a crash)
 static std::string shape_of(const std::vector<int> &h) {
   Ref ref; std::string ex;
-  for (int i = 0; i < g_prefill; i++) { for (int b = 0; b < 5; b++) ref.key(((i >> b) & 1) ? KB : KA, ex); ref.key(ENTER, ex); }
+  for (int i = 0; i < g_prefill; i++) { for (int k : prefill_keys(i)) ref.key(k, ex); ref.key(ENTER, ex); }
   for (size_t i = 0; i + 1 < h.size(); i++) ref.key(h[i], ex);
   return h.empty() ? std::string("editor-session-setup") : std::string("editor-key-") + KN[h.back()] + "-" + ref.where();
 }
@@ -172,6 +181,7 @@ int main(int argc, char **argv) {
   if (getenv("C13_GLUE")) g_glue = getenv("C13_GLUE");
   if (getenv("C13_ALPHA")) g_alpha = getenv("C13_ALPHA");
   g_twin = getenv("C13_TWIN") && atoi(getenv("C13_TWIN")) != 0;
+  g_long = getenv("C13_LONG") && atoi(getenv("C13_LONG")) != 0;
   g_options = g_mode == "echo" ? TerminalInteract::kEnableEcho : g_mode == "quiet" ? TerminalInteract::kQuietMode : 0; g_quiet = g_mode == "quiet";
   if (one) { std::vector<int> h; for (const char *p = argv[5]; *p; p++) h.push_back(*p - 'A'); std::string v; replay(h, v); fprintf(stderr, "viol=%s\n", v.c_str()); return 0; }
   size_t depth = g_depth;
@@ -179,7 +189,7 @@ int main(int argc, char **argv) {
   g_worker.fn = [](const std::string &job) { std::vector<int> h; for (char ch : job) h.push_back(ch); std::string v, c = replay(h, v); c.push_back('\0'); return c + v; };
   printf("@INFO editor %s: probe mounted under every line over {a,b} up to length %zu; enter=%s glue=%s alphabet=%s\n", g_mode.c_str(), (g_prefill ? 5 : 0) + g_depth, enter_name.c_str(), g_glue.c_str(), g_alpha.c_str());
   std::map<std::string, int> crash_seen;
-  hx::Explorer<int> ex; ex.name = "editor:" + g_mode + ":prefill" + std::to_string(g_prefill) + (g_alpha != "base" ? ":alpha-" + g_alpha : "") + (g_glue != "none" ? ":glue-" + g_glue + ":enter-" + enter_name : "") + (g_twin ? ":two-sessions" : ""); ex.deadline_s = deadline(600);
+  hx::Explorer<int> ex; ex.name = "editor:" + g_mode + ":prefill" + std::to_string(g_prefill) + (g_alpha != "base" ? ":alpha-" + g_alpha : "") + (g_glue != "none" ? ":glue-" + g_glue + ":enter-" + enter_name : "") + (g_twin ? ":two-sessions" : "") + (g_long ? ":long-lines" : ""); ex.deadline_s = deadline(600);
   ex.show = [](const int &k) { return std::string(KN[k]); };
   ex.menu = [&](const std::vector<int> &) { return alphabet(); };
   ex.run = [&](const std::vector<int> &h, std::string &viol) {
